@@ -82,6 +82,18 @@ func (g *gen) addHelpers() {
 		}
 		K.after("print1", nil)
 	}
+	// negative HexInteger values (outside the property's "non-negative", theorem C19_hexint_negative_no_roundtrip):
+	// the text is "0x-" + hex digits, MarshalJSON is that text quoted, and it is refused when read back
+	for _, i := range []int64{-1, -15, -16, -255, -(1 << 53), -(1<<63 - 1), -(1 << 63), -int64(r.U64()>>1) - 1} {
+		g.st.Hit("helper:negative-print")
+		h := ethtypes.NewHexInteger64(i)
+		want := "0x-" + new(big.Int).Abs(big.NewInt(i)).Text(16)
+		j, err := h.MarshalJSON()
+		var back ethtypes.HexInteger
+		if h.String() != want || err != nil || string(j) != `"`+want+`"` || back.UnmarshalJSON(j) == nil {
+			g.helperFail("negative HexInteger print form", fmt.Sprintf("%d -> %s / %s", i, h.String(), j))
+		}
+	}
 	// nil receivers: zero; BigInt() of a nil receiver is the caller's own zero every time
 	{
 		g.st.Hit("helper:nil-receiver")
